@@ -38,6 +38,8 @@ from fractions import Fraction
 import numpy as np
 
 ID = "C13"
+# computational entry points whose results are watched by the engine's retained-result oracle (mc/explore.py)
+RETAIN = [('hydrodiy.gis.grid', 'Grid.clip'), ('hydrodiy.gis.grid', 'Grid.to_dict'), ('hydrodiy.gis.grid', 'Catchment.to_dict')]
 RULE = ("nested enumeration: (io) shape x 11 dtypes x every rotation of the dtype's extreme-value "
         "list over the cells x nodata alphabet x geometry list x {save/I, raw header/I, raw header/M} "
         "x {from_header, from_stream, from_zip} + to_dict/from_dict + clone + clone independence; "
